@@ -72,28 +72,27 @@ Proof. intros [|[|]|z|s]; reflexivity. Qed.
 Theorem and3_err_iff : forall a b e,
   and3 a b = Err e <-> e = EType /\ (is_b3 a = false \/ is_b3 b = false).
 Proof.
-  intros [|[|]|z|s] [|[|]|z'|s'] e; cbn; split; intros H;
-    try discriminate H;
-    try (inversion H; subst; split; [reflexivity|auto]; fail);
-    try (destruct H as [_ [H|H]]; discriminate H);
-    try (destruct H as [-> _]; reflexivity).
+  intros [|[|]|z|s] [|[|]|z'|s'] e; cbn;
+    (split;
+     [ intros H; first [discriminate H | inversion H; subst; split; [reflexivity|auto]]
+     | intros [He Hd]; subst e; first [reflexivity | destruct Hd as [Hd|Hd]; discriminate Hd] ]).
 Qed.
 
 Theorem or3_err_iff : forall a b e,
   or3 a b = Err e <-> e = EType /\ (is_b3 a = false \/ is_b3 b = false).
 Proof.
-  intros [|[|]|z|s] [|[|]|z'|s'] e; cbn; split; intros H;
-    try discriminate H;
-    try (inversion H; subst; split; [reflexivity|auto]; fail);
-    try (destruct H as [_ [H|H]]; discriminate H);
-    try (destruct H as [-> _]; reflexivity).
+  intros [|[|]|z|s] [|[|]|z'|s'] e; cbn;
+    (split;
+     [ intros H; first [discriminate H | inversion H; subst; split; [reflexivity|auto]]
+     | intros [He Hd]; subst e; first [reflexivity | destruct Hd as [Hd|Hd]; discriminate Hd] ]).
 Qed.
 
 Theorem not3_err_iff : forall a e, not3 a = Err e <-> e = EType /\ is_b3 a = false.
 Proof.
-  intros [|[|]|z|s] e; cbn; split; intros H;
-    try (inversion H; subst; split; reflexivity);
-    try (destruct H as [-> H]; try discriminate H; reflexivity).
+  intros [|[|]|z|s] e; cbn;
+    (split;
+     [ intros H; first [discriminate H | inversion H; subst; split; reflexivity]
+     | intros [He Hd]; subst e; first [reflexivity | discriminate Hd] ]).
 Qed.
 
 (* results stay inside {TRUE, FALSE, NULL} *)
@@ -351,6 +350,27 @@ Module WhereExample.
                                (EConst (VInt 0)).
   Example error_aborts : eval_query d [] (QSelect (Some f) (Some w_err) None None sel false) = Err EDivZero.
   Proof. vm_compute. reflexivity. Qed.
+  Example error_hyps_satisfiable :
+    exists s1 r s2 (pred : row -> value),
+      eval_from d [] f = Ok (s1 ++ r :: s2) /\
+      (forall r', In r' s1 -> eval_expr d (r' :: []) w_err = Ok (pred r') /\ is_b3 (pred r') = true) /\
+      eval_expr d (r :: []) w_err = Err EDivZero.
+  Proof.
+    exists [[VInt 1; VBool true]; [VInt 2; VNull]], [VInt 3; VBool false], [[VInt 4; VBool true]],
+           (fun _ => VBool false).
+    split; [reflexivity|]. split; [|reflexivity].
+    intros r' Hr'. cbn [In] in Hr'. destruct Hr' as [Hr'|[Hr'|Hr']]; [subst r'|subst r'|destruct Hr'];
+      split; reflexivity.
+  Qed.
+
+  (* SELECT a FROM t0 WHERE a : an integer is not a predicate *)
+  Example non_boolean_hyps_satisfiable :
+    eval_from d [] f = Ok ([] ++ [VInt 1; VBool true] :: tl (nth 0 d [])) /\
+    eval_expr d ([VInt 1; VBool true] :: []) (ECol 0 0) = Ok (VInt 1) /\ is_b3 (VInt 1) = false.
+  Proof. repeat split. Qed.
+  Example non_boolean_is_type_error :
+    eval_query d [] (QSelect (Some f) (Some (ECol 0 0)) None None sel false) = Err EType.
+  Proof. vm_compute. reflexivity. Qed.
 End WhereExample.
 
 (* ------------------------------------------------------------------ d. IN lists *)
@@ -510,8 +530,14 @@ Proof.
 Qed.
 
 Example distributive_hyps_satisfiable :
-  eval_expr [] [] (EConst VNull) = Ok VNull /\ eval_expr [] [] (EConst (VBool false)) = Ok (VBool false).
-Proof. split; reflexivity. Qed.
+  eval_expr [] [] (EConst VNull) = Ok VNull /\ eval_expr [] [] (EConst (VBool false)) = Ok (VBool false)
+  /\ eval_expr [] [] (EConst (VBool true)) = Ok (VBool true).
+Proof. repeat split. Qed.
+(* (NULL AND FALSE) OR (NULL AND TRUE) = NULL = NULL AND (FALSE OR TRUE) *)
+Example distributive_example :
+  eval_expr [] [] (EOr (EAnd (EConst VNull) (EConst (VBool false))) (EAnd (EConst VNull) (EConst (VBool true))))
+  = Ok VNull.
+Proof. vm_compute. reflexivity. Qed.
 
 (* ------------------------------------------------------------------ e. CASE *)
 
@@ -582,6 +608,9 @@ Module CaseExample.
   Example boom_is_an_error : eval_expr [] [] boom = Err EDivZero.
   Proof. vm_compute. reflexivity. Qed.
   Example else_taken : eval_expr [] [] (ECase pre (EConst (VInt 9))) = Ok (VInt 9).
+  Proof. vm_compute. reflexivity. Qed.
+  Example reached_when_error :
+    eval_expr [] [] (ECase (pre ++ (boom, EConst (VInt 1)) :: []) (EConst VNull)) = Err EDivZero.
   Proof. vm_compute. reflexivity. Qed.
 End CaseExample.
 
